@@ -167,8 +167,8 @@ def process(rec, payload, workdir, idx):
             o1 = outcome(lambda: pm.solve_t(t, **opts))
             o2 = outcome(lambda: fm.solve_t(t, **opts))
             n += 1
-            finite = all(np.all(np.isfinite(v)) for k_, v in state(pm).items() if v.dtype.kind == 'f')
-            if not finite or o1 == ('exc', 'ZeroDivisionError'):
+            finite = all(np.all(np.isfinite(v)) for m_ in (pm, fm) for k_, v in state(m_).items() if v.dtype.kind == 'f')
+            if not finite or o1 == ('exc', 'ZeroDivisionError') or o1 == o2 == ('exc', 'SolutionError'):
                 continue  # the property is about data for which values stay finite
             if o1 != o2:
                 feasible = lags <= p < L - leads
@@ -197,8 +197,8 @@ def process(rec, payload, workdir, idx):
             o1 = outcome(lambda: pm.solve(**kw))
             o2 = outcome(lambda: fm.solve(**kw))
             n += 1
-            finite = all(np.all(np.isfinite(v)) for k_, v in state(pm).items() if v.dtype.kind == 'f')
-            if not finite or o1 == ('exc', 'ZeroDivisionError'):
+            finite = all(np.all(np.isfinite(v)) for m_ in (pm, fm) for k_, v in state(m_).items() if v.dtype.kind == 'f')
+            if not finite or o1 == ('exc', 'ZeroDivisionError') or o1 == o2 == ('exc', 'SolutionError'):
                 continue
             if (o1[0], o1[1] if o1[0] == 'exc' else [list(x) for x in o1[1]]) != (o2[0], o2[1] if o2[0] == 'exc' else [list(x) for x in o2[1]]):
                 raise Mis('solve-outcome-differs', script=script, options=kw, python=str(o1), fortran=str(o2))
